@@ -4,7 +4,8 @@ import Srctools.Model.C17
 requests:
   {"op":"collapse","inst":{"name":[cp],"style":n,"fixup":[[[cp],[cp]]…],"R":[9 rat],"o":[3 rat]},
    "tmpl":{"brushes":[solid…],"ents":[ent…]}}                      → {"brushes":[…],"ents":[…]}
-     solid = [side…]; side = {"p":[[3 rat]×3],"u":[5 rat],"v":[5 rat]}   (u/v = x y z offset scale)
+     solid = [side…]; side = {"p":[[3 rat]×3],"u":[5 rat],"v":[5 rat],"d":null|disp}   (u/v = x y z offset scale)
+     disp  = {"pos":[3 rat],"verts":[[normal, offset, offset_norm (3 rat each), distance, alpha]…]}
      ent   = {"keys":[[[cp],kind,payload]…],"outs":[[cp]…],"fixups":[[cp]…],"solids":[solid…]}
      kind/payload: "pos"|"dir" [3 rat]; "axis" [[3 rat],[3 rat]]; "orient" [9 rat];
                    "name"|"text"|"keep" [cp]; "nameOrClass" [[cp], bool]
@@ -57,19 +58,40 @@ def axOf (j : Json) : Except String (UVAxis Rat) := do
 def ofAx (a : UVAxis Rat) : Json :=
   Json.arr #[ofRat a.dir.x, ofRat a.dir.y, ofRat a.dir.z, ofRat a.offset, ofRat a.scale]
 
-def sideOf (j : Json) : Except String (Side Rat) := do
-  let p ← (← j.getObjVal? "p").getArr?
-  if p.size != 3 then throw "side: need 3 plane points"
-  pure ⟨← v3Of p[0]!, ← v3Of p[1]!, ← v3Of p[2]!, ← axOf (← j.getObjVal? "u"), ← axOf (← j.getObjVal? "v")⟩
-
-def ofSide (s : Side Rat) : Json :=
-  Json.mkObj [("p", Json.arr #[ofV3 s.p0, ofV3 s.p1, ofV3 s.p2]), ("u", ofAx s.u), ("v", ofAx s.v)]
-
 def listOf {β : Type} (f : Json → Except String β) (j : Json) : Except String (List β) := do
   let a ← j.getArr?
   a.toList.mapM f
 
 def ofList {β : Type} (f : β → Json) (l : List β) : Json := Json.arr (l.map f).toArray
+
+/-- displacement vertex = [normal, offset, offset_norm, distance, alpha] -/
+def dvertOf (j : Json) : Except String (DispVert Rat) := do
+  let a ← j.getArr?
+  if a.size != 5 then throw "disp vertex: need [normal, offset, offset_norm, distance, alpha]"
+  pure ⟨← v3Of a[0]!, ← v3Of a[1]!, ← v3Of a[2]!, ← ratOf a[3]!, ← ratOf a[4]!⟩
+
+def ofDVert (d : DispVert Rat) : Json :=
+  Json.arr #[ofV3 d.normal, ofV3 d.offset, ofV3 d.offsetNorm, ofRat d.distance, ofRat d.alpha]
+
+def dispOf (j : Json) : Except String (Option (Disp Rat)) := do
+  if j.isNull then return none
+  pure (some ⟨← v3Of (← j.getObjVal? "pos"), ← listOf dvertOf (← j.getObjVal? "verts")⟩)
+
+def ofDisp : Option (Disp Rat) → Json
+  | none => Json.null
+  | some d => Json.mkObj [("pos", ofV3 d.pos), ("verts", ofList ofDVert d.verts)]
+
+def sideOf (j : Json) : Except String (Side Rat) := do
+  let p ← (← j.getObjVal? "p").getArr?
+  if p.size != 3 then throw "side: need 3 plane points"
+  let d ← match j.getObjVal? "d" with
+    | .ok dj => dispOf dj
+    | .error _ => pure none
+  pure ⟨← v3Of p[0]!, ← v3Of p[1]!, ← v3Of p[2]!, ← axOf (← j.getObjVal? "u"), ← axOf (← j.getObjVal? "v"), d⟩
+
+def ofSide (s : Side Rat) : Json :=
+  Json.mkObj [("p", Json.arr #[ofV3 s.p0, ofV3 s.p1, ofV3 s.p2]), ("u", ofAx s.u), ("v", ofAx s.v),
+              ("d", ofDisp s.disp)]
 
 def solidOf : Json → Except String (Solid Rat) := listOf sideOf
 def ofSolid (s : Solid Rat) : Json := ofList ofSide s
